@@ -80,3 +80,144 @@ let () =
     let thr0 = match sh with (t, _, _) :: _ -> t | [] -> zero_big_int in
     vout (fun x -> I x) (Model.vss_reconstruct (curve_of c) thr0 (List.map (fun (_, id, _) -> id) sh) (List.map (fun (_, _, v) -> v) sh))
     | _ -> arity ())
+
+(* ---------------- provers, Paillier, codecs, MtA ---------------- *)
+let sk_of v = match as_ints v with
+  | [n; l; phi; p; q] -> { Model.skN = n; skLambda = l; skPhi = phi; skP = p; skQ = q }
+  | _ -> raise (Bad "sk")
+let vpts ps = L (List.map vpt ps)
+let flat_of (ps : Model.pt list) : v = vints (Model.flatten ps)
+let vbob (p : Model.bob_pf) = vints [p.Model.bZ; p.bZPrm; p.bT; p.bV; p.bW; p.bS; p.bS1; p.bS2; p.bT1; p.bT2]
+let valice (p : Model.alice_pf) = vints [p.Model.aZ; p.aU; p.aW; p.aS; p.aS1; p.aS2]
+let opt_pt c v = match v with L [_; _] -> (match dec_pt c v with Some p -> Some p | None -> raise (Bad "refused point")) | _ -> None
+
+let () =
+  reg "schnorr_prove" (fun a -> match a with [c; s; x; r] ->
+    let c = curve_of c in
+    (match Model.ec_base_mul c (as_int x) with
+     | Model.Ok xp -> vout (fun (al, t) -> L [vpt al; I t]) (Model.zk_prove h_sha512_256 c (as_bytes s) (as_int x) xp (as_int r))
+     | _ -> A "Panic") | _ -> arity ());
+  reg "schnorrv_prove" (fun a -> match a with [c; s; r; sv; l; ra; rb] ->
+    let c = curve_of c in
+    (match dec_pt c r with
+     | None -> A "Err"
+     | Some rp ->
+       (match Model.ec_smul c rp (as_int sv), Model.ec_base_mul c (as_int l) with
+        | Model.Ok sr, Model.Ok lg ->
+          (match Model.ec_add c sr lg with
+           | Model.Ok v -> vout (fun ((al, t), u) -> L [vpt al; I t; I u])
+                             (Model.zkv_prove h_sha512_256 c (as_bytes s) v rp (as_int sv) (as_int l) (as_int ra) (as_int rb))
+           | _ -> A "Err")
+        | _ -> A "Panic")) | _ -> arity ());
+  reg "vss_create" (fun a -> match a with [c; t; sec; ids; tail] ->
+    vout (fun (vs, sh) -> L [flat_of vs; vints sh]) (Model.vss_create (curve_of c) (as_int t) (as_int sec) (as_ints ids) (as_ints tail)) | _ -> arity ());
+  reg "check_indexes" (fun a -> match a with [c; ids] -> vbool (Model.check_indexes (curve_of c) (as_ints ids)) | _ -> arity ());
+  reg "pai_encrypt" (fun a -> match a with [n; m; x] -> vout (fun z -> I z) (Model.encrypt (as_int n) (as_int m) (as_int x)) | _ -> arity ());
+  reg "pai_homo_mult" (fun a -> match a with [n; m; c] -> vout (fun z -> I z) (Model.homo_mult (as_int n) (as_int m) (as_int c)) | _ -> arity ());
+  reg "pai_homo_add" (fun a -> match a with [n; c1; c2] -> vout (fun z -> I z) (Model.homo_add (as_int n) (as_int c1) (as_int c2)) | _ -> arity ());
+  reg "pai_decrypt" (fun a -> match a with [k; c] -> vout (fun z -> I z) (Model.decrypt (sk_of k) (as_int c)) | _ -> arity ());
+  reg "pai_prove" (fun a -> match a with [k; kk; pub] ->
+    (match dec_pt Model.secp256k1 pub with
+     | Some (Some (sx, sy)) -> vout vints (Model.pai_prove h_sha512_256 (nat_of_int 2000) (sk_of k) (as_int kk) sx sy)
+     | _ -> A "Err") | _ -> arity ());
+  reg "alice_prove" (fun a -> match a with [c; n; ca; nt; h1; h2; m; r; rnd] ->
+    (match as_ints rnd with
+     | [al; be; ga; rho] ->
+       L [A "Ok"; valice (Model.alice_prove h_sha512_256 (curve_of c) (as_int n) (as_int ca) (as_int nt) (as_int h1) (as_int h2) (as_int m) (as_int r) al be ga rho)]
+     | _ -> raise (Bad "alice randomness")) | _ -> arity ());
+  reg "bob_prove" (fun a -> match a with [c; s; n; nt; h1; h2; c1; c2; x; y; r; xo; rnd] ->
+    let c = curve_of c in
+    (match as_ints rnd with
+     | [al; rho; sg; tau; rp; be; ga] ->
+       vout (fun (pf, u) -> L [vbob pf; vpt u])
+         (Model.bob_prove h_sha512_256 c (as_bytes s) (as_int n) (as_int nt) (as_int h1) (as_int h2) (as_int c1) (as_int c2) (as_int x) (as_int y) (as_int r)
+            (opt_pt c xo) al rho sg tau rp be ga)
+     | _ -> raise (Bad "bob randomness")) | _ -> arity ());
+  reg "fac_prove" (fun a -> match a with [c; s; n0; nc; sv; tv; p; q; rnd] ->
+    (match as_ints rnd with
+     | [al; be; mu; nu; sg; r; x; y] ->
+       let pf = Model.fac_prove h_sha512_256 (curve_of c) (as_bytes s) (as_int n0) (as_int nc) (as_int sv) (as_int tv) (as_int p) (as_int q) al be mu nu sg r x y in
+       L [A "Ok"; vints [pf.Model.fP; pf.fQ; pf.fA; pf.fB; pf.fT; pf.fSigma; pf.fZ1; pf.fZ2; pf.fW1; pf.fW2; pf.fV]]
+     | _ -> raise (Bad "fac randomness")) | _ -> arity ());
+  reg "mod_prove" (fun a -> match a with [s; n; p; q; w] ->
+    vout (fun pf -> vints ([pf.Model.mW] @ pf.mX @ [pf.mA; pf.mB] @ pf.mZ))
+      (Model.mod_prove h_sha512_256 (as_bytes s) (as_int n) (as_int p) (as_int q) (as_int w)) | _ -> arity ());
+  reg "dln_prove" (fun a -> match a with [h1; h2; x; p; q; n; rs] ->
+    let (al, t) = Model.dln_prove h_sha512_256 (as_int h1) (as_int h2) (as_int x) (as_int p) (as_int q) (as_int n) (as_ints rs) in
+    L [A "Ok"; L [vints al; vints t]] | _ -> arity ());
+  reg "new_ec_point" (fun a -> match a with [c; x; y] -> vopt vpt (Model.new_ec_point (curve_of c) (as_int x) (as_int y)) | _ -> arity ());
+  reg "unflatten" (fun a -> match a with [c; l] -> vout vpts (Model.unflatten (curve_of c) (as_ints l)) | _ -> arity ());
+  reg "ec_add" (fun a -> match a with [c; p; q] ->
+    let c = curve_of c in
+    (match dec_pt c p, dec_pt c q with
+     | Some p, Some q -> vout vpt (Model.ec_add c p q)
+     | _ -> A "BadPoint") | _ -> arity ());
+  reg "ec_smul" (fun a -> match a with [c; p; k] ->
+    let c = curve_of c in
+    (match dec_pt c p with Some p -> vout vpt (Model.ec_smul c p (as_int k)) | None -> A "BadPoint") | _ -> arity ());
+  reg "ec_base_mul" (fun a -> match a with [c; k] -> vout vpt (Model.ec_base_mul (curve_of c) (as_int k)) | _ -> arity ());
+  reg "eight_inv_eight" (fun a -> match a with [c; p] ->
+    let c = curve_of c in
+    (match dec_pt c p with Some p -> vout vpt (Model.eight_inv_eight c p) | None -> A "BadPoint") | _ -> arity ());
+  reg "json_point" (fun a -> match a with [name; x; y] ->
+    let nm = as_atom name in
+    let c = (match nm with "secp256k1" | "none" -> Some Model.secp256k1 | "ed25519" -> Some Model.ed25519 | _ -> None) in
+    (match c with
+     | None -> A "None"
+     | Some c ->
+       (match Model.new_ec_point c (as_int x) (as_int y) with
+        | Some _ -> L [A "Some"; L [A (if nm = "none" then "secp256k1" else nm); x; y]]
+        | None -> A "None")) | _ -> arity ());
+  reg "gob_roundtrip" (fun a -> match a with [_; x; y] ->
+    (* GobDecode always checks against the global curve (secp256k1 by default) *)
+    (match Model.new_ec_point Model.secp256k1 (as_int x) (as_int y) with
+     | Some p -> L [A "Some"; vpt p]
+     | None -> A "None") | _ -> arity ());
+  reg "mta_run" (fun a -> match a with [c; s; k; pa; pb; av; bv; bo; rnd] ->
+    let c = curve_of c in
+    let sk = sk_of k in
+    let n = sk.Model.skN in
+    let session = as_bytes s in
+    (match as_ints pa, as_ints pb, as_list rnd with
+     | [nta; h1a; h2a], [ntb; h1b; h2b], [xa; ar; bp; xb; br] ->
+       (match as_ints ar, as_ints br with
+        | [a1; a2; a3; a4], [b1; b2; b3; b4; b5; b6; b7] ->
+          let bpt = opt_pt c bo in
+          (match Model.alice_init h_sha512_256 c n (as_int av) (as_int xa) ntb h1b h2b a1 a2 a3 a4 with
+           | Model.Ok (ca, pfa) ->
+             (match Model.bob_mid h_sha512_256 c session n pfa (as_int bv) ca nta h1a h2a ntb h1b h2b bpt (as_int bp) (as_int xb) b1 b2 b3 b4 b5 b6 b7 with
+              | Model.Ok ((((bet, cb), _), pfb), u) ->
+                let uo = (match bpt with Some _ -> Some u | None -> None) in
+                (match Model.alice_end h_sha512_256 c session sk pfb uo bpt ca cb nta h1a h2a with
+                 | Model.Ok al -> L [A "Done"; I ca; I cb; I al; I bet]
+                 | Model.Err -> L [A "AliceEndErr"; I ca; I cb]
+                 | _ -> A "Panic")
+              | Model.Err -> L [A "BobMidErr"; I ca]
+              | _ -> A "Panic")
+           | Model.Err -> L [A "AliceInitErr"]
+           | _ -> A "Panic")
+        | _ -> raise (Bad "mta randomness"))
+     | _ -> raise (Bad "mta params")) | _ -> arity ())
+
+(* wire round trip of proofs: a component that is 0 encodes to an empty part, which
+   NonEmptyMultiBytes refuses (the decoder returns an error); signs are dropped *)
+let any_zero l = List.exists (fun x -> sign_big_int x = 0) l
+let () =
+  let rt name n_pf =
+    reg (name ^ "_rt") (fun a ->
+      let pf = List.nth a n_pf in
+      let ints = as_ints pf in
+      if any_zero ints then A "Err"
+      else
+        let a' = List.mapi (fun i x -> if i = n_pf then vints (List.map abs_big_int ints) else x) a in
+        (match Hashtbl.find_opt table name with Some f -> f a' | None -> A "NoModelOp")) in
+  rt "alice_verify" 6; rt "bob_verify" 8; rt "fac_verify" 6; rt "mod_verify" 2;
+  reg "bobwc_verify_rt" (fun a ->
+    let ints = as_ints (List.nth a 8) in
+    let u = as_ints (List.nth a 9) in
+    if any_zero ints || any_zero u then A "Err"
+    else (match Hashtbl.find_opt table "bobwc_verify" with Some f -> f a | None -> A "NoModelOp"));
+  (* dln: Serialize/Unmarshal go through the commitment builder; zero components survive *)
+  reg "dln_verify_rt" (fun a -> match Hashtbl.find_opt table "dln_verify" with
+    | Some f -> f (List.mapi (fun i x -> if i >= 3 then vints (List.map abs_big_int (as_ints x)) else x) a)
+    | None -> A "NoModelOp")
